@@ -109,7 +109,7 @@ var (
 	diverged  int
 )
 
-const readLimit = 2 * time.Second
+const readLimit = 5 * time.Second
 
 func hx(b []byte) string { return hex.EncodeToString(b) }
 
